@@ -198,14 +198,16 @@ Proof.
   apply decode_name_flat; assumption.
 Qed.
 
-Theorem pname_nc_dec_complete : dec_complete pname_nc_dec.
+Theorem pname_nc_dec_complete strict : dec_complete (pname_nc_dec strict).
 Proof.
   intros pre n post lim Hv H1 H2. unfold pname_nc_dec, parse_ref.
   assert (Hf : (length n < PARSE_FUEL)%nat).
   { pose proof (total_bound pre post n lim Hv H1 H2) as Ht. pose proof (labels_count n) as Hc.
     unfold W in Ht. unfold PARSE_FUEL. lia. }
   pose proof (parse_labels_flat pre post n lim Hv H1 H2 n [] PARSE_FUEL eq_refl Hf) as Hp.
-  rewrite W_nil, N.add_0_r in Hp. rewrite Hp. cbn [bind pn_compressed].
+  rewrite W_nil, N.add_0_r in Hp. rewrite Hp. cbn [bind pn_compressed pn_end pn_len].
+  replace (len pre + W n + 1 - len pre =? W n + 1) with true by (symmetry; apply N.eqb_eq; lia).
+  rewrite andb_false_r.
   unfold pname_labels. cbn [pn_pos pn_len pn_end].
   pose proof (iter_labels_flat pre post n lim Hv H1 H2 n [] PARSE_FUEL [] eq_refl Hf) as Hi.
   rewrite W_nil, N.add_0_r in Hi. rewrite Hi.
